@@ -69,11 +69,15 @@ KEYS_HEX = [
 # address tokens: <kind>.<hex of packed host>.<port>; kind 4 = IPv4 text, 6 = IPv6 text, 0 = host name
 V4 = ["4.0a00000%d.%d" % (i, 4000 + i) for i in range(1, 5)]
 V6 = ["6.20010db80000000000000000000000%02x.%d" % (i, 6000 + i) for i in range(1, 4)]
+# IPv6 addresses whose text form has more than one plausible rendering: IPv4-mapped (what a dual-stack socket reports),
+# IPv4-compatible, loopback, a zero run in the middle
+V6_FORMS = ["6.00000000000000000000ffff01020304.7001", "6.00000000000000000000000005060708.7002",
+            "6.00000000000000000000000000000001.7003", "6.20010db8000000000001000000000001.7004"]
 DOM = ["0.%s.%d" % (("node%d.example.org" % i).encode().hex(), 5000 + i) for i in range(1, 3)]
 ZERO = "4.00000000.0"
 # boundary values: port 0 on a real host, the zero host with a real port, high host bytes and the highest port
 EDGE = ["4.0a000009.0", "4.00000000.7", "4.c8c8c8c8.65535"]
-POOL = V4 + V6 + DOM + [ZERO] + EDGE
+POOL = V4 + V6 + DOM + [ZERO] + EDGE + V6_FORMS
 SVCS = ["s1", "s2", "s3"]
 NSLOTS = 5          # 0 UDPv4Address, 1 UDPv6Address, 2 tuple, 3 UDPv4LANAddress, 4 DomainAddress
 
@@ -104,15 +108,18 @@ def addr_value(tok: str):
 
 
 def addr_token(value) -> str:
+    """token of an address VALUE held by the implementation.  Addresses are compared as (text, port) tuples in Python, so a
+    text that is not the form sockets report (inet_ntop) is a different address even if it packs to the same bytes: it
+    gets a token of its own"""
     host, port = value[0], value[1]
-    try:
-        return "4.%s.%d" % (socket.inet_pton(socket.AF_INET, host).hex(), port)
-    except OSError:
-        pass
-    try:
-        return "6.%s.%d" % (socket.inet_pton(socket.AF_INET6, host).hex(), port)
-    except OSError:
-        pass
+    for fam, kind in ((socket.AF_INET, "4"), (socket.AF_INET6, "6")):
+        try:
+            raw = socket.inet_pton(fam, host)
+        except OSError:
+            continue
+        if socket.inet_ntop(fam, raw) != host:
+            return "%s.%s.%d!text=%s" % (kind, raw.hex(), port, host)
+        return "%s.%s.%d" % (kind, raw.hex(), port)
     return "0.%s.%d" % (host.encode().hex() or "-", port)
 
 
@@ -772,8 +779,9 @@ def check_query(ctx: Ctx, spec: Spec, real: Real, t, got: str, objs, history, li
         b_ = spec.walkable(None if t[1] == "-" else t[1], t[2] == "1", verified_introducers_only=True)
         if a_ != b_:
             ctx.count("class:qw:answer-depends-on-unverified-introducer")
-        if got == show_list(b_):      # judged: either reading is accepted (design.d/C12.md, Judgements)
-            return
+        # judged (design.d/C12.md): the advertised services of the introducer count whether or not the introducer is a
+        # verified peer — an address introduced by a bootstrap server / blacklisted identity stays walkable for the
+        # services that identity advertised
         cmp_list(a_)
     elif op == "qi":
         cmp_list(spec.intros(int(t[1][1:])))
@@ -1071,7 +1079,7 @@ def rand_slots(rng):
     if r < 0.7:
         slots[0] = rng.choice(V4 if rng.random() < 0.95 else [ZERO])
     if rng.random() < 0.25 or not slots:
-        slots[1] = rng.choice(V6)
+        slots[1] = rng.choice(V6 + V6_FORMS)
     if rng.random() < 0.15:
         slots[2] = rng.choice(V4 + DOM)
     if rng.random() < 0.12:
@@ -1346,6 +1354,12 @@ def scripted():
         # boundary addresses: port 0 on a real host, zero host with a real port, highest port
         [c500, f"add p0:0={EDGE[0]}", f"add p1:0={EDGE[1]}", f"add p2:0={EDGE[2]}", "snap", f"qa {EDGE[0]} ?", "load *", "qw - 0"],
         [c500, f"add p0:0={ZERO}", f"add p1:1={V6[0]}", "snap", "load *", "qw - 0"],
+        # IPv6 text forms: every address must come back from snapshot -> load_snapshot as the same (text, port)
+        [c500] + [f"add p{i}:1={v}" for i, v in enumerate(V6_FORMS)] + ["snap", "load *", "qw - 0"]
+        + [f"rmp p{i}:*" for i in range(len(V6_FORMS))] + ["load *", "qw - 0", f"qa {V6_FORMS[0]} ?"],
+        # an introducer that never becomes verified (blacklisted identity / blacklisted address) advertises a service
+        [c500, "blm p0", "svcs p0:- [s1]", f"disc p0:0={a} {x} s2 0", "qw s1 0", "qw s2 0", "qw s3 0", "qs s1", "qi p0"],
+        [c500, f"bla {a}", "svcs p0:- [s1]", f"disc p0:0={a} {x} s2 0", f"add p1:0={b}", "svcs p1:- [s2]", "qw s1 0", "qw s2 0", "qk p0"],
         # two blacklisted identities
         [c500, "blm p0", "blm p1", f"add p1:0={a}", f"add p0:0={b}", f"add p2:0={x}", "qk p0", "qk p1", "qk p2",
          f"disc p1:0={a} {V4[3]} s1 0", "svcs p1:- [s2]", "qw s2 0", "qi p1"],
